@@ -123,6 +123,10 @@ func (eval *Evaluator) Evaluate(ct *rlwe.Ciphertext, testPolyWithSlotIndex map[i
 			// f(X) * X^{b + <a, s>}
 			res[index] = acc.CopyNew()
 
+			// The accumulator is allocated at the maximum level: only the limbs up to the level of the
+			// blind rotation keys carry the result.
+			res[index].Resize(res[index].Degree(), brk.LevelQ())
+
 			if !eval.paramsBR.NTTFlag() {
 				ringQBR.INTT(res[index].Value[0], res[index].Value[0])
 				ringQBR.INTT(res[index].Value[1], res[index].Value[1])
